@@ -360,6 +360,19 @@ class Obligation:
 def solve(ob, timeout_ms=20000):
     t0 = time.time()
     g = ob.goal
+    if ob.kind == "cover":
+        # vacuity guard: the hypotheses alone must not be contradictory (sat or unknown is fine)
+        s = z3.Solver()
+        s.set("timeout", 3000)
+        for a in getattr(ob, "defs", []):
+            s.add(a)
+        for a in ob.assumptions:
+            s.add(a)
+        r = s.check()
+        ob.seconds = time.time() - t0
+        ob.solver = "z3-" + z3.get_version_string()
+        ob.status = "unsat" if r != z3.unsat else "vacuous"
+        return ob
     if g is True or (L.is_z3(g) and z3.is_true(g)):
         ob.status, ob.solver = "unsat", "static"
         return ob
@@ -533,6 +546,9 @@ class Exec:
         v = self.ns(st)
         for name, term in c.requires(v):
             st.assume(term)
+        cov = Obligation(self.qualname + "/cover/entry/requires-satisfiable", "cover", False, list(st.pc), 0, "")
+        cov.defs = self.defs
+        self.obligations.append(cov)
         self.entry_pc_len = len(st.pc)
         self.apply_anchor(st, "entry")
         body = strip_docstring(self.fn)
